@@ -398,6 +398,13 @@ def judge_write(m, den, site, case, ctx):
         return
     ctx.passed("write.raises")
     case = dict(case, written=text[-500:])
+    # writing is an observation: the same object written again gives the same document (data equality)
+    ctx.transition()
+    try:
+        again = m.write()
+        ctx.check("write.repeatable", again == text or yaml.safe_load(again) == yaml.safe_load(text), site=dict(route=site.get("route")), case=case, observed=again[-500:], expected=text[-500:])
+    except Exception as e:
+        ctx.check("write.repeatable", False, site=dict(route=site.get("route"), exc=type(e).__name__), case=case, observed=f"{type(e).__name__}: {e}"[:300], expected="the same document")
     try:
         d = yaml.safe_load(text)
     except Exception as e:
@@ -565,13 +572,19 @@ def check_route(route, ctx):
     ctx.case()
     ctx.state(("qua-route", route), nontrivial=True)
     try:
+        twin = None
         if route == "write/edit/write":
-            m = starts.make("qua", "plain")
+            # the expectation comes from a twin that gets the same edits but was never written before
+            def edit(x):
+                x.initial_scroll_velocity = 1.0
+                x.hits.offset += 1000
+                x.holds.length = x.holds.length * 2
+                x.bpms.bpm = x.bpms.bpm * 2
+            m, twin = starts.make("qua", "plain"), starts.make("qua", "plain")
             m.initial_scroll_velocity = 1.0
             m.write()
-            m.hits.offset += 1000
-            m.holds.length = m.holds.length * 2
-            m.bpms.bpm = m.bpms.bpm * 2
+            edit(m)
+            edit(twin)
         elif route == "OsuToQua":
             m = C.OsuToQua.convert(starts.make("osu", "plain"))
         elif route == "OsuToQua/rate":
@@ -587,4 +600,4 @@ def check_route(route, ctx):
     except Exception as e:
         ctx.check("setup", False, site=dict(route=route, exc=type(e).__name__), case=case, observed=f"{type(e).__name__}: {e}"[:300], expected="a Quaver chart")
         return
-    judge_write(m, lib_den(m), dict(route=route, devs=[]), case, ctx)
+    judge_write(m, lib_den(twin if twin is not None else m), dict(route=route, devs=[]), case, ctx)
